@@ -20,6 +20,7 @@ CONF = {
     "C04": tiers(3000, 4, 40000, 12),
     "C07": tiers(2500, 4, 40000, 12),
     "C16": tiers(1500, 4, 20000, 12),
+    "C17": tiers(20000, 2, 300000, 12),
     "C10": tiers(2500, 4, 40000, 12),
     "C11": tiers(2500, 4, 40000, 12),
     "C13": tiers(1500, 4, 25000, 12),
@@ -33,6 +34,10 @@ GRAM_NOTE = ("Trusts the harness's reference parser (gram/model.go, a ~300-line 
              "semantics, itself validated by agreement with the real parser on hundreds of thousands of cases and by planted-mutation probes), "
              "the generator's domain (<=7 productions, inputs <=40 tokens over a 12-token vocabulary, one stateful lexer profile with "
              "WS/Comment elision) and rapid. Cases whose reference evaluation exceeds 20000 steps are discarded and counted, not judged.")
+
+LEX_NOTE = ("Trusts the harness's reference lexer (lexgen/ref.go, written from the documented behaviour; it walks the user's rules without "
+            "pre-expanding includes and matches with unanchored regexps accepted only at offset 0), the generator's domain (<=4 states, <=6 rules "
+            "per state, patterns from a regexp-AST generator, inputs of a few dozen bytes) and rapid.")
 
 META = {
     "C01": dict(
@@ -50,6 +55,44 @@ META = {
               "every kind of choice point) and the AST of every accepted parse is checked to contain nothing that the accepted derivation "
               "did not capture. Exploration; the share of cases that actually pass an abandoned attempt with captures is measured (non-trivial count).",
         note=GRAM_NOTE),
+    "C03": dict(
+        engine="lexgen", design_ref="3/C03",
+        technique="differential property test: generated rule sets x inputs vs reference stateful lexer (rapid)",
+        level="Generated rule sets (Push/Pop/Return/Include, shared names, lower-case rules, overlapping patterns, back-references) x inputs "
+              "walked through the state machine are lexed by the runtime lexer and an independent reference lexer; token name/text/offset and the "
+              "error position must agree. Exploration with measured shares of multi-candidate offsets, includes, back-references, multi-state inputs.",
+        note=LEX_NOTE + " Cases where a Pop/Return has nothing to return to, an action rule's group did not participate, or a back-referenced "
+             "text is not valid UTF-8 are outside the statement and are counted and skipped."),
+    "C04": dict(
+        engine="lexgen", design_ref="3/C04",
+        technique="property test with a validity predicate computed from the input text alone (rapid)",
+        level="Stateful, simple and text/scanner-based lexers (three scanner configurations) over inputs rich in newlines, CR/LF, multi-byte and "
+              "invalid UTF-8, long inputs, all entry points and filenames; every successful token stream is validated against the input: values, "
+              "offsets, order, single final EOF, concatenation, line/column recomputed from the offset, filename. Exploration.",
+        note="Trusts the ~60-line validator (lexgen/validate.go) and utf8.RuneCountInString as the meaning of 'characters'. Generated lexers are "
+             "covered by the compile stage of C05 (same validator)."),
+    "C07": dict(
+        engine="lexgen", design_ref="3/C07",
+        technique="property test: generated hostile rule sets/inputs/call histories with a no-panic, progress and sticky-EOF oracle + watchdog (rapid)",
+        level="Rule sets in which Pop/Return are reachable in the initial state, groups may not participate, back-references may name missing groups "
+              "x hostile inputs x extra Next calls after EOF/error; each call runs under a recover and a 20 s watchdog. Exploration.",
+        note=LEX_NOTE + " 'Terminates' is judged with a 20 s per-call watchdog (typical call: microseconds)."),
+    "C16": dict(
+        engine="lexgen", design_ref="3/C16",
+        technique="round-trip + differential property test (rapid)",
+        level="For generated rule sets (all action kinds, nested includes, patterns with quotes, backslashes, control characters, non-ASCII) the "
+              "definition and its rule map are marshalled, unmarshalled and rebuilt; symbol tables must be equal and token streams/errors identical "
+              "on generated inputs. Exploration.",
+        note=LEX_NOTE),
+    "C17": dict(
+        engine="props", design_ref="3/C17",
+        technique="differential property test against strconv (rapid)",
+        level="Static grammars for 22 numeric kinds (all widths, named types incl. two pairs of identically printed local types, pointers, slices, "
+              "multi-token captures, an alternative that can accept the text as a string) x generated texts (width boundaries +-1 in four bases, "
+              "underscores, exponents, hex floats, Inf/NaN, junk) compared with strconv.ParseInt/ParseUint/ParseFloat; failures must be located "
+              "at the first captured token and name the conversion. Exploration.",
+        note="Trusts strconv as the meaning of the conversion (as the property states) and rapid. Known finding F2 (error positioned at a preceding "
+             "elided token) is excluded by signature."),
     "C10": dict(
         engine="gram", design_ref="3/C10",
         technique="metamorphic property test: re-spacing / re-commenting of generated inputs (rapid)",
